@@ -109,7 +109,7 @@ def language_lemmas():
     from pyvc.rx import Pat
     from pytrs.parser.rgxlib import twprge as T
     body = {}
-    for nm in ('twprge_regex', 'pp_twprge_no_nswe', 'pp_twprge_no_nsr', 'pp_twprge_no_ewt'):
+    for nm in ('twprge_regex', 'pp_twprge_no_nswe', 'pp_twprge_no_nsr', 'pp_twprge_no_ewt', 'pp_twprge_ocr_scrub'):
         p = Pat.of(getattr(T, nm))
         body[nm] = p.lang_items(list(p.tree), strict=False)
     items = []
@@ -132,6 +132,15 @@ def language_lemmas():
     items.append(('twprge_regex_members_have_both_directions',
                   z3.Implies(z3.InRe(x, body['twprge_regex']),
                              z3.InRe(x, z3.Concat(fullre, digit, fullre, ns, fullre, digit, fullre, ew, fullre)))))
+    # all strings: a Twp/Rge whose numbers hold OCR look-alikes (S O I l ] |) — one to three characters each, a lone '2' excepted
+    # for the range as documented — is in the language of the OCR pattern
+    ocrc = z3.Union(digit, *[z3.Re(c) for c in 'SOIl]|'])
+    ocr1 = z3.Union(z3.Range('0', '1'), z3.Range('3', '9'), *[z3.Re(c) for c in 'SOIl]|'])
+    doc = z3.Concat(z3.Re('T'), z3.Loop(ocrc, 1, 3), z3.Union(z3.Re('N'), z3.Re('S')), z3.Re('-R'),
+                    z3.Union(z3.Loop(ocrc, 2, 3), ocr1), z3.Union(z3.Re('E'), z3.Re('W')))
+    items.append(('ocr_look_alike_numbers_are_in_the_ocr_pattern', z3.Implies(z3.InRe(x, doc), z3.InRe(x, body['pp_twprge_ocr_scrub']))))
+    for s_ in ('T154N-RSW', 'Township lS4 North, Range l West', 'T12S-ROE', 'TIS4N-R97W', 'T1]4N-R9|W'):
+        items.append((f'ocr_spelling_in_the_ocr_pattern[{s_}]', z3.InRe(z3.StringVal(s_), body['pp_twprge_ocr_scrub'])))
     return Lemmas(items)
 
 
@@ -297,7 +306,10 @@ def _bounded_twprge(tier, seed):
     if got != ['T154N-R97W', 'T7S-R2E', 'T155N-R98W']:
         bad({'fn': 'find_twprge', 'text': 'three Twp/Rges'}, got, ['T154N-R97W', 'T7S-R2E', 'T155N-R98W'])
     # ocr look-alikes
-    for raw, want in (('T1S4N-R97W', 'T154N-R97W'), ('TI54N-R9OW', 'T154N-R90W'), ('Tl54N-R97W', 'T154N-R97W'), ('T154N-RS7W', 'T154N-R57W'), ('T1O4N-R97W', 'T104N-R97W')):
+    for raw, want in (('T1S4N-R97W', 'T154N-R97W'), ('TI54N-R9OW', 'T154N-R90W'), ('Tl54N-R97W', 'T154N-R97W'), ('T154N-RS7W', 'T154N-R57W'), ('T1O4N-R97W', 'T104N-R97W'),
+                      # a look-alike as the only character of a number
+                      ('T154N-RSW', 'T154N-R5W'), ('Township lS4 North, Range l West', 'T154N-R1W'), ('T7N-RIW', 'T7N-R1W'),
+                      ('TSN-R1W', 'T5N-R1W'), ('TlN-RlE', 'T1N-R1E')):
         d = pytrs.PLSSDesc(f"{raw} Sec 14: NE/4", config='ocr_scrub')
         ev += 1
         distinct.add(('ocr', raw))
